@@ -62,10 +62,80 @@ def budget(tier):
 
 
 def strategy(tier):
+    from vf.checks import c03
+
     return st.one_of(
         st.tuples(st.just("sql"), st_program(cfg(tier, "sql"))),
+        st.tuples(st.just("sql"), st_program(cfg(tier, "sql"))),
         st.tuples(st.just("iter"), st_program(cfg(tier, "iter"))),
+        st.tuples(st.just("iter"), st_program(cfg(tier, "iter"))),
+        # relations obtained through preferred-engine options (operations inserted upstream, downstream operations
+        # re-applied on top): their declared columns and row bounds must be as truthful as anybody else's
+        st.tuples(st.just("opt"), c03.st_case(tier)),
     )
+
+
+def run_opt_case(body, stats, case):
+    import itertools
+
+    from lsst.daf.relation import ColumnError, EngineError
+
+    from vf.checks import c03
+    from vf.core.proc import execute_processed, make_processor
+    from vf.core.prog import OutOfDomain, ev_multi
+
+    universe, leaves, S, base, final, *rest = body
+    if final[0] == "join":
+        full = ("join", ("leaf", final[2][1]), base, final[3]) if final[4] else ("join", base, final[2], final[3])
+    else:
+        full = (final[0], base) + tuple(final[2:])
+    truth = ev_multi(full, leaves)  # OutOfDomain (P1) discards the case
+    env = Env(leaves)
+    try:
+        rels = {}
+        try:
+            build_all(base, env, rels)
+        except BuildError:
+            return
+        root = rels[id(base)]
+        fixed_rel = env.leafrels[final[2][1]] if final[0] == "join" else None
+        checked = 0
+        for pref, bits in itertools.product((S, 1) if final[0] != "join" else (S,), range(8 if final[0] != "join" else 4)):
+            o = dict(backtrack=bool(bits & 1), transfer=bool(bits & 2))
+            if final[0] != "join":
+                o["require_preferred_engine"] = bool(bits & 4)
+                o["preferred_engine"] = env.engines[pref]
+            label = f"preferred=E{pref} " + " ".join(f"{k}={v}" for k, v in o.items() if k != "preferred_engine")
+            try:
+                res = c03.issue(final, root, fixed_rel, env, o)
+            except Exception:
+                continue  # which requests are refused is the subject of C03 / C20
+            what = f"{final[0]} with {label} on {fmt(base, leaves)}"
+            for n in lib_nodes(res):
+                try:
+                    dec = decode(n, env)
+                    want = set(schema(dec, leaves))
+                except Exception:
+                    continue
+                if set(n.columns) != want:
+                    raise Violation("columns-untruthful", f"declared columns {set(n.columns)} != schema of the decoded sub-tree {want}; node {str(n)[:200]} of the result of {what}", field="columns")
+            try:
+                rows = execute_processed(env, make_processor(env).process(res))
+            except Exception:
+                continue  # executability of what the options return is C03's subject
+            if truth.det or truth.ordered:
+                check_executed_bounds(res, rows, what)
+            else:
+                want = set(res.columns)
+                for r in rows:
+                    if set(r.keys()) != want:
+                        raise Violation("columns-untruthful", f"executed row keys {set(r.keys())} != declared columns {want}; result of {what}", field="columns-executed")
+            checked += 1
+        stats.c["opt:results-checked"] += checked
+        if checked:
+            stats.mark_nontrivial(codec.digest(case), lambda: describe(case), cls=f"opt/{final[0]}")
+    finally:
+        env.close()
 
 
 def check_node(n, leaves, env, which, stats):
@@ -179,6 +249,8 @@ def custom_filter_bounds(root, rows, env, stats):
 def run_case(case, stats):
     from lsst.daf.relation import ColumnError, EngineError
 
+    if case[0] == "opt":
+        return run_opt_case(case[1], stats, case)
     which, (universe, leaves, prog) = case
     if which == "iter":
         ev_list(prog, leaves, check_fd=True)  # OutOfDomain for P1 violations
@@ -279,6 +351,12 @@ def run_case(case, stats):
 
 
 def describe(case):
+    if case[0] == "opt":
+        from vf.checks import c03
+
+        d = c03.describe(case[1])
+        d["kind"] = "base + final operation, preferred-engine option combinations"
+        return d
     return describe_case(*case[1], engine=case[0])
 
 
